@@ -9,12 +9,24 @@ from vf.core import pbytes
 LEASE_TIME = 31 * 24 * 60 * 60
 
 
+def _near(base, i, tag):
+    """secret #0 is `base`; #1 differs from it only in the first byte, #2 only in the last byte (near misses: a comparison that looks at a
+    prefix, a suffix or a single byte confuses them); higher numbers are unrelated."""
+    if i == 0:
+        return base
+    if i == 1:
+        return bytes([base[0] ^ 1]) + base[1:]
+    if i == 2:
+        return base[:-1] + bytes([base[-1] ^ 1])
+    return hashlib.sha256(b"%s-%d" % (tag, i)).digest()
+
+
 def enabler(i):
-    return hashlib.sha256(b"enabler-%d" % i).digest()
+    return _near(hashlib.sha256(b"enabler-0").digest(), i, b"enabler")
 
 
 def lsecret(i):
-    return hashlib.sha256(b"renew-%d" % i).digest(), hashlib.sha256(b"cancel-%d" % i).digest()
+    return _near(hashlib.sha256(b"renew-0").digest(), i, b"renew"), _near(hashlib.sha256(b"cancel-0").digest(), i, b"cancel")
 
 
 class MShare:
